@@ -660,6 +660,13 @@ func (w *c47World) implSummary() string {
 	m.targetsMtx.Lock()
 	var ts []string
 	for k, srcs := range m.targets {
+		if len(srcs) == 0 {
+			// A pool without sources behaves exactly like an absent pool (ApplyConfig copies
+			// only non-empty pools, updateGroup creates a missing pool, allGroups lists the
+			// sources); whether it exists depends on whether an emptying update met the pool
+			// before or after a reload dropped it.
+			continue
+		}
 		id, ok := names[k.provider]
 		if !ok {
 			id = "orphan" // targets of a provider that is no longer registered
